@@ -8,6 +8,13 @@ def run(res):
     common.prove(res, c02.KIT_L)
     c02.kit_s_part(res)
     diffcommon.run_diff_cases(res, {'C01'}, 'C01', {}, quick=(32, 80), thorough=(128, 300), cli=3 if res.tier == 'quick' else 10)
+    # file interface, structural part (Tier E): on every returning path of nbdiffapp._handle_diff that computed the diff, the diff is
+    # written once with json.dump to the file opened on --out when one is named, pretty-printed once otherwise; nothing is swallowed
+    from contracts import kit_e
+    failed = []
+    for job in kit_e.C01_FILE_JOBS:
+        failed += common.prove_paths(res, job[0], job[1], job[2], default_raises=job[3]) or []
+    common.report_path_failures(res, failed)
     from . import localecommon
     localecommon.difffile_part(res)          # nbdiff --out / nbpatch -o as real processes, also under a non-UTF-8 locale
     res.coverage['explanation'] = (
